@@ -270,6 +270,107 @@ pub fn check_config(cfg: &Config, text: &str, dj: &str, base: &Base, json_leaf_c
     }
 }
 
+/// two rules files, one document: structured json / yaml / junit / sarif and the console must agree
+pub fn check_multi(files: &[File], dj: &str, acc: &mut Acc) {
+    let texts: Vec<String> = files.iter().map(print_file).collect();
+    let mut bases = vec![];
+    for t in &texts {
+        match lib_record(t, dj).map(|r| obs_from_record(&r)) {
+            Ok(Obs::Ok(f, rs)) => bases.push(Base { file: f, rules: rs }),
+            _ => return, // evaluation error in one of the files: no verdict to compare
+        }
+    }
+    let all_rules: Vec<(String, St)> = bases.iter().flat_map(|b| b.rules.clone()).collect();
+    let fold = if all_rules.iter().any(|(_, s)| *s == St::Fail) {
+        St::Fail
+    } else if all_rules.iter().any(|(_, s)| *s == St::Pass) {
+        St::Pass
+    } else {
+        St::Skip
+    };
+    let want_exit = if fold == St::Fail { 19 } else { 0 };
+    let mut want_sorted = all_rules.clone();
+    want_sorted.sort();
+    let run = |extra: &[&str]| {
+        let mut a = sv(&["validate"]);
+        for (k, t) in texts.iter().enumerate() {
+            a.push("-r".into());
+            a.push(put(&format!("c07m/f{}.guard", k), t));
+        }
+        a.push("-d".into());
+        a.push(put("c07m/d.json", dj));
+        a.extend(sv(extra));
+        (cli_inproc(&a, ""), a)
+    };
+    let mut viols: Vec<(String, String, Vec<String>)> = vec![];
+    let mut leaf = None;
+    for fmt in ["json", "yaml", "junit", "sarif", "plain"] {
+        let (o, argv) = if fmt == "plain" { run(&["-S", "all"]) } else { run(&["--structured", "-o", fmt, "-S", "none"]) };
+        acc.traces += 1;
+        acc.nontrivial += 1;
+        let mut bad = |sig: &str, what: String| viols.push((format!("multi-{}:{}", sig, fmt), what, argv.clone()));
+        if o.panic.is_some() {
+            bad("panic", format!("{:?}", o.panic));
+            continue;
+        }
+        if o.code != Ok(want_exit) {
+            bad("exit-code", format!("exit {:?}, rules evaluate to {:?}", o.code, all_rules));
+        }
+        match fmt {
+            "json" | "yaml" => {
+                let reps = if fmt == "json" { parse_structured_json(&o.out) } else { parse_structured_yaml(&o.out).map(|x| x.0) };
+                match reps {
+                    Err(e) => bad("not-well-formed", e),
+                    Ok(reps) => {
+                        if reps.len() != 1 {
+                            bad("report", format!("{} reports for one data file", reps.len()));
+                        }
+                        for d in &reps {
+                            if fmt == "json" {
+                                leaf = Some(d.leaf_checks);
+                            }
+                            if partition_of(d) != want_sorted || d.status != Some(fold) {
+                                bad("report", format!("report {:?} status {:?}; rules evaluate to {:?}, fold {:?}", partition_of(d), d.status, want_sorted, fold));
+                            }
+                        }
+                    }
+                }
+            }
+            "junit" => match parse_junit(&o.out) {
+                Err(e) => bad("not-well-formed", e),
+                Ok(cases) => {
+                    let marks: Vec<String> = cases.iter().map(|c| c.mark.clone()).collect();
+                    let want: Vec<String> = bases.iter().map(|b| match b.file { St::Pass => "pass", St::Fail => "fail", St::Skip => "skip" }.to_string()).collect();
+                    if marks != want {
+                        bad("marks", format!("test case marks {:?}, per-file statuses {:?}", marks, want));
+                    }
+                }
+            },
+            "sarif" => match parse_sarif(&o.out) {
+                Err(e) => bad("not-well-formed", e),
+                Ok(results) => {
+                    if let Some(n) = leaf {
+                        if results.len() != n {
+                            bad("results", format!("{} results but the JSON report lists {} failing checks", results.len(), n));
+                        }
+                    }
+                }
+            },
+            _ => {
+                let pr = parse_plain(&o.out, "sls");
+                let got: Vec<(Option<St>, BTreeSet<String>, BTreeSet<String>, BTreeSet<String>)> = pr.tables.iter().map(|t| (t.status, t.pass.iter().cloned().collect(), t.fail.iter().cloned().collect(), t.skip.iter().cloned().collect())).collect();
+                let want: Vec<(Option<St>, BTreeSet<String>, BTreeSet<String>, BTreeSet<String>)> = bases.iter().filter(|b| !b.rules.is_empty()).map(|b| (Some(b.file), b.set(St::Pass), b.set(St::Fail), b.set(St::Skip))).collect();
+                if got != want {
+                    bad("tables", format!("tables {:?}, per-file verdicts {:?}", got, want));
+                }
+            }
+        }
+    }
+    for (sig, what, argv) in viols {
+        acc.violate(&sig, format!("{} | rules {:?} data {}", what, texts, dj), json!({"kind":"cli","argv":argv,"stdin":"","files":{"rules":texts,"data":dj},"expected":format!("{:?}", want_sorted),"observed":what}));
+    }
+}
+
 pub fn run(tier: &str) -> i32 {
     let thorough = tier == "thorough";
     let mut rep = Report::new("C07", tier);
@@ -351,6 +452,26 @@ pub fn run(tier: &str) -> i32 {
             (a, b2) => acc.violate("structured-not-well-formed", format!("json ok={} yaml ok={}; rules `{}` data {}", a.is_ok(), b2.is_ok(), text.trim(), dj), json!({"kind":"cli","files":{"rules":text,"data":dj},"expected":"well-formed","observed":"parse failure"})),
         }
     }, Acc::merge);
+    // ---- several rules files against one document: the renderings must agree with each other
+    let pool_idx: Vec<usize> = (0..10).map(|k| (k * 131 + 7) % progs.len()).collect();
+    let pool: Vec<File> = pool_idx.iter().enumerate().map(|(k, pi)| tag_messages(&crate::c09::rename_rules(&progs[*pi], &format!("f{}", k)), &format!("f{}", k))).collect();
+    let mut combos: Vec<(usize, usize)> = vec![];
+    for a in 0..pool.len() {
+        for b2 in 0..pool.len() {
+            if a != b2 {
+                combos.push((a, b2));
+            }
+        }
+    }
+    let n2 = combos.len() * djs.len();
+    let r2 = crate::par::run(n2, rep.seed as u64, crate::par::deadline_secs(if thorough { 600 } else { 20 }), Acc::new, |k, acc| {
+        let (ci, di) = (k / djs.len(), k % djs.len());
+        let (a, b2) = combos[ci];
+        check_multi(&[pool[a].clone(), pool[b2].clone()], &djs[di], acc);
+    }, Acc::merge);
+    let mut res = res;
+    res.acc = Acc::merge(res.acc, r2.acc);
+    rep.extra.insert("two_file_runs".into(), json!(r2.done));
     rep.states = res.acc.nontrivial + res.done as u64;
     rep.transitions = res.acc.nontrivial;
     if res.capped {
